@@ -545,21 +545,24 @@ def run_long(tier, acc):
     """Long narrow tori: the tree already holds so many chips when a later
     sink is routed that the router switches to its other neighbour search
     (concentric hexagons around the sink), and the nearest tree chip lies
-    across the wrap-around edge.  Small radii (1, 2), every late sink in the
-    last columns / rows, both orientations."""
+    across the wrap-around edge of the short axis.  Radius 1, short axis
+    1/2/3/4/8, both orientations."""
     N = 50
-    for (w, h) in ((1, N), (N, 1), (2, N), (N, 2)):
-        long_axis = 1 if h == N else 0
-        for far in (24, 25):
-            for back in range(1, 5):
-                for radius in (1, 2):
-                    a = [0, 0]
-                    a[long_axis] = far
-                    for off in range(min(w, h)):
-                        b = [off, off]
-                        b[long_axis] = N - back
+    # (destinations are routed nearest first: the late sink must be the
+    # farther one, and its nearest tree chip is across the SHORT axis' wrap)
+    for short in (1, 2, 3, 4, 8):
+        for transposed in (False, True):
+            w, h = (N, short) if transposed else (short, N)
+            for k in (22, 24, 26):
+                for dk in (0, 1, 2):
+                    for radius in (1,):
+                        a = [short - 1, k]
+                        b = [0, k + dk]
+                        src = [short - 1, 0]
+                        if transposed:
+                            a, b, src = a[::-1], b[::-1], src[::-1]
                         case = dict(w=w, h=h, dead_chips=[], dead_links=[],
-                                    src=[0, 0], sinks=[a, b],
+                                    src=src, sinks=[a, b],
                                     kinds=["cores", "cores"], radius=radius,
                                     _connected=True, _fam="long")
                         acc.nontrivial += 1
